@@ -65,6 +65,14 @@ impl<W, Ty> SymGraph<W, Ty> {
     pub fn pos(&self, id: usize) -> usize {
         self.ids.iter().position(|&x| x == id).expect("SymGraph: unknown node id")
     }
+    /// (position, first column) for iterators: an unknown id (a vacancy below node_bound) yields an
+    /// empty iteration, exactly like a vacant StableGraph index does
+    fn start(&self, id: usize) -> (usize, usize) {
+        match self.ids.iter().position(|&x| x == id) {
+            Some(i) => (i, 0),
+            None => (0, self.n()),
+        }
+    }
     pub fn has_pos(&self, i: usize, j: usize) -> bool {
         decide(&self.var(i, j))
     }
@@ -185,7 +193,10 @@ impl<W, Ty: EdgeType> GetAdjacencyMatrix for SymGraph<W, Ty> {
     type AdjMatrix = ();
     fn adjacency_matrix(&self) {}
     fn is_adjacent(&self, _m: &(), a: usize, b: usize) -> bool {
-        self.has(a, b)
+        match (self.ids.iter().position(|&x| x == a), self.ids.iter().position(|&x| x == b)) {
+            (Some(i), Some(j)) => self.has_pos(i, j),
+            _ => false,
+        }
     }
 }
 impl<W, Ty: EdgeType> DataMap for SymGraph<W, Ty> {
@@ -295,13 +306,13 @@ impl<'a, W, Ty> Iterator for SAllEdges<'a, W, Ty> {
 impl<'a, W, Ty: EdgeType> IntoNeighbors for &'a SymGraph<W, Ty> {
     type Neighbors = SNeighbors<'a, W, Ty>;
     fn neighbors(self, a: usize) -> SNeighbors<'a, W, Ty> {
-        SNeighbors { g: self, i: self.pos(a), j: 0, dir: Direction::Outgoing }
+        { let (i, j) = self.start(a); SNeighbors { g: self, i, j, dir: Direction::Outgoing } }
     }
 }
 impl<'a, W, Ty: EdgeType> IntoNeighborsDirected for &'a SymGraph<W, Ty> {
     type NeighborsDirected = SNeighbors<'a, W, Ty>;
     fn neighbors_directed(self, a: usize, d: Direction) -> SNeighbors<'a, W, Ty> {
-        SNeighbors { g: self, i: self.pos(a), j: 0, dir: d }
+        { let (i, j) = self.start(a); SNeighbors { g: self, i, j, dir: d } }
     }
 }
 impl<'a, W, Ty: EdgeType> IntoEdgeReferences for &'a SymGraph<W, Ty> {
@@ -314,13 +325,13 @@ impl<'a, W, Ty: EdgeType> IntoEdgeReferences for &'a SymGraph<W, Ty> {
 impl<'a, W, Ty: EdgeType> IntoEdges for &'a SymGraph<W, Ty> {
     type Edges = SEdges<'a, W, Ty>;
     fn edges(self, a: usize) -> SEdges<'a, W, Ty> {
-        SEdges { g: self, i: self.pos(a), j: 0, dir: Direction::Outgoing }
+        { let (i, j) = self.start(a); SEdges { g: self, i, j, dir: Direction::Outgoing } }
     }
 }
 impl<'a, W, Ty: EdgeType> IntoEdgesDirected for &'a SymGraph<W, Ty> {
     type EdgesDirected = SEdges<'a, W, Ty>;
     fn edges_directed(self, a: usize, d: Direction) -> SEdges<'a, W, Ty> {
-        SEdges { g: self, i: self.pos(a), j: 0, dir: d }
+        { let (i, j) = self.start(a); SEdges { g: self, i, j, dir: d } }
     }
 }
 impl<'a, W, Ty: EdgeType> IntoNodeIdentifiers for &'a SymGraph<W, Ty> {
